@@ -302,7 +302,11 @@ def rule_liveflag(ctx):
               'has-unconfirmed-inputs is computed from the transactions currently in the pool',
               f'has-unconfirmed-inputs is `{norm(e)}`, not a test of the prevouts against the current pool: it stays true after the parent confirmed',
               loc=ctx.loc(f, ctors[0]))
-    ok2 = norm(ctors[0].args[0]) == norm([p for p, _f in q.enclosing_chain(q.stmt(ctors[0]), f.node) if isinstance(p, ast.For)][0].target)
+    # the summary is built once per element of an iteration (a loop, or the comprehension the normaliser makes of it)
+    fors = [p for p, _f in q.enclosing_chain(q.stmt(ctors[0]), f.node) if isinstance(p, ast.For)]
+    comps = [c for c in ast.walk(q.stmt(ctors[0])) if isinstance(c, ast.ListComp) and any(x is ctors[0] for x in ast.walk(c.elt))]
+    tgt = fors[0].target if fors else (comps[0].generators[-1].target if comps and len(comps[0].generators) == 1 and not comps[0].generators[0].ifs else None)
+    ok2 = tgt is not None and norm(ctors[0].args[0]) == norm(tgt)
     ctx.check(ok2, 'C08.LIVEFLAG', ctx.key(f, q.stmt(ctors[0]), 'one summary per indexed tx'),
               'one summary per transaction indexed under the hashX', 'summaries are not one per indexed transaction', loc=ctx.loc(f, ctors[0]))
     return 2
@@ -366,11 +370,34 @@ def rule_fixpoint(ctx, rule='C08.FIXPOINT'):
               why + ': descendants whose ancestors arrived in another batch (or a later generation) are dropped although the refresh was quiet',
               loc=ctx.loc(f, loops[0] if loops else f.node))
     n += 1
+    # every return has passed the removal loop and the computation of the new hashes (dominance, so guard clauses after
+    # those two steps are fine while a short-cut before them is not)
+    ah = f.params[1]
+
+    def diff_call(node, base_is_listing):
+        for c in ast.walk(node):
+            if isinstance(c, ast.Call) and isinstance(c.func, ast.Attribute) and c.func.attr == 'difference' and len(c.args) == 1:
+                if base_is_listing and norm(c.func.value) == ah:
+                    return True
+                if not base_is_listing and norm(c.args[0]) == ah:
+                    return True
+        return False
+    removal = [s for s in f.node.body if isinstance(s, ast.For) and diff_call(s.iter, False)]
+    newh = [s for s in f.node.body if not isinstance(s, (ast.For, ast.While, ast.AsyncFor)) and diff_call(s, True)]
     rets = [r for r in f.own_nodes() if isinstance(r, ast.Return)]
-    early = [r for r in rets if r is not f.node.body[-1]]
-    ctx.check(not early and len(rets) == 1, rule, ctx.key(f, None, 'no refresh skipped'),
+    early = []
+    if len(removal) == 1 and len(newh) >= 1:
+        must = {cfg.node(removal[0]), cfg.node(newh[0])}
+        for r in rets:
+            for m in must:
+                if pr.path_avoiding(cfg, [cfg.entry], [cfg.node(r)], {m}) is not None:
+                    early.append(r)
+                    break
+    else:
+        early = rets or [f.node]
+    ctx.check(not early and bool(rets), rule, ctx.key(f, None, 'no refresh skipped'),
               'the only way through _process_mempool without processing the listing is the DBSyncError guard',
-              'an early return skips the refresh: ' + '; '.join(f'line {r.lineno} under {[norm(t) for t, b, _p in pr.control_conditions(r, f.node)]}' for r in early[:2]) +
+              'a return skips the refresh: ' + '; '.join(f'line {r.lineno} under {[norm(t) for t, b, _p in pr.control_conditions(r, f.node)]}' for r in early[:2] if isinstance(r, ast.Return)) +
               ' - a listing of the same size (one eviction, one arrival) or any other guessed "no change" leaves the view stale',
               loc=ctx.loc(f, early[0] if early else f.node))
     return n + 1
